@@ -122,4 +122,13 @@ crate::harnesses! {
         }
         chk::<0>(); chk::<1>(); chk::<2>(); chk::<3>(); chk::<6>();
     }
+    // assume_specification [iN::is_negative] (unit conv_prim): full domain of every signed type, loop-free (complete)
+    fn core_specs_is_negative_spec() {
+        let a: i8 = any(); assert!(a.is_negative() == (a < 0), "i8");
+        let b: i16 = any(); assert!(b.is_negative() == (b < 0), "i16");
+        let c: i32 = any(); assert!(c.is_negative() == (c < 0), "i32");
+        let d: i64 = any(); assert!(d.is_negative() == (d < 0), "i64");
+        let e: i128 = any(); assert!(e.is_negative() == (e < 0), "i128");
+        let f: isize = any(); assert!(f.is_negative() == (f < 0), "isize");
+    }
 }
